@@ -417,6 +417,7 @@ fn instantiate_struct_fields(
 }
 
 fn collect_runtime_types(
+    goenv: &GlobalGoEnv,
     file: &anf::File,
 ) -> (IndexSet<tast::Ty>, IndexSet<tast::Ty>, IndexSet<tast::Ty>) {
     struct Collector {
@@ -428,10 +429,30 @@ fn collect_runtime_types(
     impl Collector {
         fn collect_file(
             mut self,
+            goenv: &GlobalGoEnv,
             file: &anf::File,
         ) -> (IndexSet<tast::Ty>, IndexSet<tast::Ty>, IndexSet<tast::Ty>) {
             for item in &file.toplevels {
                 self.collect_fn(item);
+            }
+            // A tuple / Ref / array type may occur only inside a type definition that is emitted (the
+            // payload of a variant nobody constructs, a field of a struct instance passed around
+            // opaquely): the Go declaration of that definition still names its runtime type.
+            for (name, def) in goenv.structs() {
+                if struct_def_is_emitted(name, def) {
+                    for (_, ty) in &def.fields {
+                        self.collect_type(ty);
+                    }
+                }
+            }
+            for (name, def) in goenv.enums() {
+                if enum_def_is_emitted(name, def) {
+                    for (_, fields) in &def.variants {
+                        for ty in fields {
+                            self.collect_type(ty);
+                        }
+                    }
+                }
             }
             (self.tuples, self.arrays, self.refs)
         }
@@ -601,7 +622,7 @@ fn collect_runtime_types(
         arrays: IndexSet::new(),
         refs: IndexSet::new(),
     }
-    .collect_file(file)
+    .collect_file(goenv, file)
 }
 
 #[derive(Default)]
@@ -2273,7 +2294,7 @@ pub fn go_file(
     let goenv = GlobalGoEnv::from_anf_env(anfenv);
     let mut all = Vec::new();
 
-    let (tuple_types, array_types, ref_types) = collect_runtime_types(&file);
+    let (tuple_types, array_types, ref_types) = collect_runtime_types(&goenv, &file);
 
     all.extend(runtime::make_runtime());
     all.extend(runtime::make_array_runtime(&array_types));
@@ -2387,16 +2408,31 @@ pub fn go_file(
     (crate::go::dce::eliminate_dead_vars(file), goenv)
 }
 
+// Which type definitions `gen_type_definition` emits: the generic originals and instances that still
+// mention a type parameter are skipped.
+fn struct_def_is_emitted(name: &TastIdent, def: &StructDef) -> bool {
+    let has_type_param = name.0.contains("TParam")
+        || !def.generics.is_empty()
+        || def
+            .fields
+            .iter()
+            .any(|(_, ty)| matches!(ty, tast::Ty::TParam { .. }));
+    !has_type_param
+}
+
+fn enum_def_is_emitted(name: &TastIdent, def: &EnumDef) -> bool {
+    let has_type_param = name.0.contains("TParam")
+        || def
+            .variants
+            .iter()
+            .any(|(_, fields)| fields.iter().any(|f| matches!(f, tast::Ty::TParam { .. })));
+    !has_type_param
+}
+
 fn gen_type_definition(goenv: &GlobalGoEnv) -> Vec<goast::Item> {
     let mut defs = Vec::new();
     for (name, def) in goenv.structs() {
-        let has_type_param = name.0.contains("TParam")
-            || !def.generics.is_empty()
-            || def
-                .fields
-                .iter()
-                .any(|(_, ty)| matches!(ty, tast::Ty::TParam { .. }));
-        if has_type_param {
+        if !struct_def_is_emitted(name, def) {
             continue;
         }
 
@@ -2417,12 +2453,7 @@ fn gen_type_definition(goenv: &GlobalGoEnv) -> Vec<goast::Item> {
 
     for (name, def) in goenv.enums() {
         // Skip generating Go types for generic-specialized enums whose fields still contain type parameters
-        let has_type_param = name.0.contains("TParam")
-            || def
-                .variants
-                .iter()
-                .any(|(_, fields)| fields.iter().any(|f| matches!(f, tast::Ty::TParam { .. })));
-        if has_type_param {
+        if !enum_def_is_emitted(name, def) {
             continue;
         }
         let type_identifier_method = format!("is{}", go_ident(&name.0));
